@@ -25,7 +25,7 @@ import vlib
 from extractors import t11
 
 HEADER = """From Coq Require Import ZArith List Bool String.
-From C11 Require Import Prim Schema Json Types ProofsSchema JsonText JsonSchema Fixup ProofsGen.
+From C11 Require Import Prim Schema Json Types ProofsSchema JsonText JsonSchema JsonObj Fixup ProofsGen.
 From Gen Require Import Schemas.
 Import ListNotations.
 Open Scope Z_scope.
@@ -1179,6 +1179,15 @@ def instance_tie(ctx: vlib.Ctx, exprs: list[str], expect: list[Any], names: list
             expect.append(list(real))
             names.append(f"Instance {name} {vn}")
             n += 1
+            if vn in ("plain", "args"):
+                # JsonObj.v: the model decodes the REAL Instance.serialize() JSON text to the same abstract value
+                # (checked by re-encoding it with the binary model against the real binary bytes)
+                from mypy.util import json_dumps as _jd
+                jt = _jd(inst.serialize())
+                exprs.append(f"match json_loads {coq_bytes(jt)} with Some j => match jo_dec 8 j with Some v => write_type json_write 8 v | None => None end | None => None end")
+                expect.append(list(real))
+                names.append(f"Instance JSON {name} {vn}")
+                n += 1
     ctx.cov["instance_tie_cases"] = n
     return n
 
@@ -1617,6 +1626,11 @@ def run(ctx: vlib.Ctx) -> None:
             if (set(js) ^ set(bn)) - exc:
                 ctx.broke("T", f"formats of {c}", f"JSON-only attributes {sorted(set(js) - set(bn) - exc)}, binary-only {sorted(set(bn) - set(js) - exc)}")
         ctx.cov["format_tables"] = {"classes": len(res["format_fields"]), "exceptions": t11.FORMAT_EXCEPTIONS}
+        ctx.cov["fixup_ref_slots"] = {c: {"slots": a, "exceptions": e} for c, a, b, e in res["ref_slots"]}
+        for c, a, b, e in res["ref_slots"]:
+            miss = [x for x in a if x not in b and x not in e]
+            if miss:
+                ctx.broke("T", f"fixup traversal of {c}", f"slots {miss} can hold TypeInfo/alias references but the class's NodeFixer/TypeFixer visitor never touches them")
         ctx.cov["fixup_attribute_coverage"] = {a: (t11.WALK_COVERAGE.get(a) or "NOT COVERED") for a in res["fixup_assigns"]}
         for a in res["fixup_assigns"]:
             if a not in t11.WALK_COVERAGE:
